@@ -71,11 +71,10 @@ def build_all(ctx, cfgs):
     t0 = time.time()
     for attempt in range(4):
         before = source_state()
+        if attempt > 0 and isinstance(getattr(ctx, "_bins", None), dict):
+            ctx._bins.clear()       # ctx.harness caches per configuration: build again (cargo decides what is stale)
         with ThreadPoolExecutor(max_workers=6) as ex:
-            if attempt == 0:
-                bins = list(ex.map(lambda c: ctx.harness(c[0], c[1]), cfgs))
-            else:
-                bins = list(ex.map(lambda c: yvlib.build_harness(c[0], c[1]), cfgs))
+            bins = list(ex.map(lambda c: ctx.harness(c[0], c[1]), cfgs))
         if source_state() == before:
             break
         log("[C10] sources changed while building, pass %d repeated" % (attempt + 1))
@@ -391,7 +390,27 @@ class Gen:
             tail.append("print(keep%d[keep%d.len() - 1]);" % (n, n))
         return head + ["for i in 0..%d { %s }" % (k, body)] + tail
 
-    KINDS = ["closures", "classes", "fibers", "exceptions", "recursion", "wide", "strings", "maps", "iterators", "alloc"]
+    # --- class lookup of every kind of value (Vm::get_class): type(v), method lookup on built-in kinds
+    def types(self):
+        r = self.rng
+        n = self.n = self.n + 1
+        vals = ["1", "\"s\"", "nil", "true", "[1]", "(1, 2)", "{1: 2}", "0..3", "print", "type", "|x| x", "tfn%d" % n,
+                "TC%d" % n, "TC%d.new()" % n, "TC%d.new().m" % n, "TC%d.sm" % n, "[].push", "\"s\".len", "Fiber.new(|| 1)",
+                "\"ab\".iter()", "[1].iter()", "(1,).iter()", "(0..2).iter()", "{}.keys", "Type", "Object"]
+        r.shuffle(vals)
+        vals = vals[:r.randint(6, len(vals))]
+        classes = ["Type", "Nil", "Bool", "Num", "StopIter", "Func", "BuiltIn", "Method", "BuiltInMethod", "String", "Vec",
+                   "Range", "Tuple", "HashMap", "Fiber", "Object"]
+        return ["fn tfn%d(a) { return a; }" % n,
+                "#[constructor(new)]", "class TC%d { fn m(self) { return 1; } #[static] fn sm() { return 2; } }" % n,
+                "var cls%d = [%s];" % (n, ", ".join(classes)),
+                "for v in [%s] {" % ", ".join(vals),
+                "  var t = type(v); var hits = [];",
+                "  for i in 0..cls%d.len() { if t == cls%d[i] { hits.push(i); } }" % (n, n),
+                "  print(\"${t} ${hits} ${type(t) == Type}\");",
+                "}", "print(type(StopIter.new()) == StopIter);"]
+
+    KINDS = ["closures", "classes", "fibers", "exceptions", "recursion", "wide", "strings", "maps", "iterators", "alloc", "types"]
 
     def program(self):
         """returns (list of snippets (each a list of lines), list of kinds)"""
@@ -409,7 +428,7 @@ class Gen:
             lines = getattr(self, kd)()
             # half of the snippets run inside a function or a fiber: locals, upvalues and frames instead of globals
             wrap = r.random()
-            if kd in ("classes", "recursion", "wide") or wrap < 0.5:
+            if kd in ("classes", "recursion", "wide", "types") or wrap < 0.5:
                 snippets.append(lines)
             elif wrap < 0.8:
                 self.n += 1
@@ -664,7 +683,7 @@ def differential(ctx, cfgs, n_generated, label):
     c["rule"] = ("programs = every script under yarel/tests/scripts (those with `import` through the harness' module "
                  "loader with all suite modules offered) + generated programs (2-8 independent snippets drawn from "
                  "closures/classes/fibers/exceptions/recursion(64-frame limit)/wide frames/strings/maps/iterators/heavy "
-                 "allocation, half of them wrapped in a function or fiber); each runs in every listed configuration; "
+                 "allocation/class lookup of every value kind, half of them wrapped in a function or fiber); each runs in every listed configuration; "
                  "evaluations = programs x configurations; a program is non-trivial when the plain release binary "
                  "(paced GC) reports >= 1 collection in its S record for it (so the collection schedules of paced and "
                  "collect-always builds really differ) AND its source creates >= 2 fibers or uses try with throw/catch; "
